@@ -383,7 +383,7 @@ Proof.
   destruct Hsb as (Hle4 & C4 & L4 & R41 & R42 & B4).
   assert (Fin : rin p' ord = rin p3 ord /\ rout p' ord = rout p3 ord /\
                 ex_in p' ord = ex_in p3 ord /\ ex_out p' ord = ex_out p3 ord - out).
-  { unfold rin, rout, ex_in, ex_out, ex1, ex2. destruct ord; simpl in *; lia. }
+  { clear - R41 R42 B4. unfold rin, rout, ex_in, ex_out, ex1, ex2. destruct ord; simpl in *; lia. }
   destruct Fin as (R5i & R5o & X5i & X5o).
   assert (Cf : same_cfg p p') by (eapply same_cfg_trans; [eapply same_cfg_trans; eauto | eauto]).
   assert (Lf : same_lp p p') by (eapply same_lp_trans; [eapply same_lp_trans; eauto | eauto]).
@@ -486,7 +486,7 @@ Proof.
   destruct Hsb as (Hle4 & C4 & L4 & R41 & R42 & B4).
   assert (Fin : rin p' ord = rin p3 ord /\ rout p' ord = rout p3 ord /\
                 ex_in p' ord = ex_in p3 ord /\ ex_out p' ord = ex_out p3 ord - aout).
-  { unfold rin, rout, ex_in, ex_out, ex1, ex2. destruct ord; simpl in *; lia. }
+  { clear - R41 R42 B4. unfold rin, rout, ex_in, ex_out, ex1, ex2. destruct ord; simpl in *; lia. }
   destruct Fin as (R5i & R5o & X5i & X5o).
   assert (Cf : same_cfg p p') by (eapply same_cfg_trans; [eapply same_cfg_trans; eauto | eauto]).
   assert (Lf : same_lp p p') by (eapply same_lp_trans; [eapply same_lp_trans; eauto | eauto]).
